@@ -161,6 +161,72 @@ func c05PemBlock(c *Ctx, tag, typ string, der []byte) {
 		guard(func() Sx { return ObsOk(InfoSx(file.VerifParsePEMBlock(typ, der))) }))
 }
 
+// c05PemDec: the blocks that PEMFile's loop over pem.Decode meets (type, bytes), against the model of pem.Decode
+func c05PemDec(c *Ctx, tag string, text []byte) {
+	c.Emit("pemdec:"+tag, SL{SB(text)}, guard(func() Sx {
+		out := SL{}
+		for _, b := range pemBlocks(text) {
+			out = append(out, SL{S(b.Type), SB(b.Bytes)})
+		}
+		return out
+	}))
+}
+
+// mutatePEM damages the framing of a PEM text
+func mutatePEM(r *Rng, t []byte) ([]byte, string) {
+	x := append([]byte{}, t...)
+	if len(x) < 8 {
+		return append(x, '-'), "append"
+	}
+	ins := func(pos int, s string) []byte {
+		return append(append(append([]byte{}, x[:pos]...), s...), x[pos:]...)
+	}
+	lineStarts := []int{0}
+	for i, b := range x {
+		if b == '\n' && i+1 < len(x) {
+			lineStarts = append(lineStarts, i+1)
+		}
+	}
+	ls := lineStarts[r.Intn(len(lineStarts))]
+	switch r.Intn(14) {
+	case 0:
+		return x[:r.Intn(len(x))], "truncate"
+	case 1:
+		x[r.Intn(len(x))] ^= byte(1 << r.Intn(8))
+		return x, "flip"
+	case 2:
+		return ins(ls, "Header-Name: value\n"), "header-line"
+	case 3:
+		return ins(ls, []string{" ", "\t", "  \t ", "\r", "\n", "\r\n", ":"}[r.Intn(7)]), "insert-ws"
+	case 4:
+		return ins(r.Intn(len(x)), []string{" ", "\t", "\r", "\n", "-", "=", ":", "-----"}[r.Intn(8)]), "insert-any"
+	case 5:
+		return bytes.Replace(x, []byte("-----END"), []byte("-----END "), 1), "end-extra-space"
+	case 6:
+		return bytes.Replace(x, []byte("-----\n"), []byte("----- \t\n"), 1+r.Intn(2)), "trailing-ws-on-marker"
+	case 7:
+		return bytes.Replace(x, []byte("-----\n"), []byte("-----x\n"), 1+r.Intn(2)), "junk-after-marker"
+	case 8:
+		return bytes.Replace(x, []byte("\n-----END"), []byte("-----END"), 1), "end-not-at-line-start"
+	case 9:
+		return bytes.ReplaceAll(x, []byte("\n"), []byte("\r\n")), "to-crlf"
+	case 10:
+		return bytes.ReplaceAll(x, []byte("\n"), []byte("\r")), "to-cr"
+	case 11:
+		return append(append([]byte{}, x...), x...), "doubled"
+	case 12: // empty body
+		i := bytes.Index(x, []byte("-----\n"))
+		j := bytes.Index(x, []byte("-----END"))
+		if i >= 0 && j > i {
+			return append(append([]byte{}, x[:i+6]...), x[j:]...), "empty-body"
+		}
+		return x, "same"
+	default:
+		pos := r.Intn(len(x))
+		return append(append([]byte{}, x[:pos]...), x[pos+1:]...), "delete"
+	}
+}
+
 func c05PemFile(c *Ctx, tag string, text []byte) {
 	os_, blocks := oraclesFor(text)
 	c.Emit("pemf:"+tag, SL{SB(text), os_, blocks},
@@ -905,6 +971,16 @@ func genC05(c *Ctx) {
 			if (pi+oi)%11 == 0 {
 				c05Sniff(c, "pres", p.data)
 			}
+			if strings.HasPrefix(p.tag, "pem-") {
+				c05PemDec(c, "pres", p.data)
+				if (pi+oi)%2 == 0 || c.Thorough() {
+					m, mt := mutatePEM(r, p.data)
+					c05PemDec(c, "mut-"+mt, m)
+					if (pi+oi)%8 == 0 {
+						c05Insp(c, "pemmut:"+mt, "mut.pem", m, nil, false)
+					}
+				}
+			}
 		}
 		// CLI: file argument vs standard input, for the DER and one other presentation
 		if oi%3 == 0 || c.Thorough() {
@@ -988,6 +1064,11 @@ func genC05(c *Ctx) {
 		sortStrings(keys)
 		for _, k := range keys {
 			c05PemFile(c, k, texts[k])
+			c05PemDec(c, "odd-"+k, texts[k])
+			for q := 0; q < 6; q++ {
+				m, mt := mutatePEM(r, texts[k])
+				c05PemDec(c, "oddmut-"+mt, m)
+			}
 			c05Insp(c, "pemodd:"+k, "odd.pem", texts[k], nil, false)
 			c05Sniff(c, "pemodd", texts[k])
 		}
